@@ -238,10 +238,15 @@ def query (l : L) (a : Addr) (pfx : String) : L × List Bytes :=
   let (l1, acc) := getOrCreate l a
   -- keys with an empty value do not exist (stored empty, or emptied / deleted in this block)
   let dbm : KV String Bytes := ((l1.db.state.filter (fun p => p.1.1 == a && p.1.2.startsWith pfx)).filter (fun p => p.2 != "")).map (fun p => (p.1.2, some p.2))
-  let m := acc.dirtyState.foldl (fun m p =>
-    if p.1.startsWith pfx then
-      if present p.2 then KV.set m p.1 p.2 else KV.erase m p.1
-    else m) dbm
+  -- what earlier blocks flushed but did not commit yet is only in the account cache (since the `fix:` commit
+  -- "QueryByPrefix reads the account cache too"); then the writes of the current block
+  let cached : KV String Bytes := (KV.get l1.cache.state a).getD []
+  let overlay (m : KV String Bytes) (src : KV String Bytes) : KV String Bytes :=
+    src.foldl (fun m p =>
+      if p.1.startsWith pfx then
+        if present p.2 then KV.set m p.1 p.2 else KV.erase m p.1
+      else m) m
+  let m := overlay (overlay dbm cached) acc.dirtyState
   (l1, (m.map (·.2)).mergeSort (fun x y => x.getD "" ≤ y.getD ""))
 
 -- ------------------------------------------------------------------------------------ snapshots
